@@ -8,7 +8,7 @@ from typing import Dict, List, Optional, Set, Tuple
 from ..core import astutil as A
 from ..core.index import AnalysisError, FuncInfo
 from ..selftest import M
-from .common import BASE_ICOMPILER, T, attr_stores, calls_named, conds, every_origin, facts, need, subscript_stores, where
+from .common import may_conds, BASE_ICOMPILER, T, attr_stores, calls_named, conds, every_origin, facts, need, subscript_stores, where
 
 KERN1 = "ufo2ft.featureWriters.kernFeatureWriter"
 KERN2 = "ufo2ft.featureWriters.kernFeatureWriter2"
@@ -212,7 +212,7 @@ def r103(prog, chk):
     addb = [c for c in A.body_nodes(cf.node) if isinstance(c, ast.Call) and A.callee_name(c) == "addGSUBFeatureVariations"]
     comp = [c for c in calls_named(cf, "compile") if isinstance(c.func, ast.Attribute)]
     cfg2 = prog.cfg(cf)
-    ok = len(addb) == 1 and len(comp) == 1 and cfg2.dominates(cfg2.node_of(comp[0]), cfg2.node_of(addb[0])) and not conds(prog, cf, addb[0]) \
+    ok = len(addb) == 1 and len(comp) == 1 and cfg2.dominates(cfg2.node_of(comp[0]), cfg2.node_of(addb[0])) and not may_conds(prog, cf, addb[0]) \
         and [T(a) for a in addb[0].args] == [cf.params()[2], cf.params()[1]]
     chk.ob("R10.3", f"{cf.short}|feature variations added back after the variable features are compiled", ok, where(cf, addb[0]) if addb else where(cf), detail="varLib.addGSUBFeatureVariations(ttFont, designSpaceDoc)",
            message=f"{cf.short}: designspace rules (GSUB feature variations) excluded from the merge are not added back unconditionally after compiling the variable features")
